@@ -18,6 +18,7 @@ import (
 	"io"
 	"net"
 	"net/netip"
+	"slices"
 	"strings"
 	"syscall"
 	"testing"
@@ -71,6 +72,7 @@ func (c *c08Cfg) neighbor() *oc.Neighbor {
 	n := &oc.Neighbor{}
 	n.Config.NeighborAddress = netip.MustParseAddr("10.9.9.9")
 	n.Config.PeerAs = c.peerAs
+	n.Config.LocalAs = c.cfgLocalAs // 0 = not configured: the server derives it
 	n.Config.SendSoftwareVersion = c.sendSw
 	n.Transport.Config.PassiveMode = true
 	n.Timers.Config.HoldTime = float64(c.hold)
@@ -148,6 +150,10 @@ func c08SessionCfg(r *vRand) *c08Cfg {
 	c.localRestarting = false
 	c.treatAsWd = true // the configuration layer's default
 	c.confed = nil
+	c.confedEn = false
+	if r.chance(15) { // a confederation whose identifier we speak towards outsiders; no member peers here (export rewriting is C09's)
+		c.confedEn, c.confedID, c.confed = true, 64999, []uint32{65300}
+	}
 	// what the configuration layer would otherwise replace by defaults, or what makes the scripted
 	// peer read thousands of keepalives
 	c.hold = r.pick(3, 9, 30, 90, 90, 180, 240)
@@ -184,7 +190,8 @@ func c08Session(t *testing.T, o *vOut, r *vRand, c *c08Cfg, spec *c08OpenSpec, s
 	s := NewBgpServer()
 	go s.Serve()
 	defer c08StopServer(s)
-	if err := s.StartBgp(ctx, &api.StartBgpRequest{Global: &api.Global{Asn: c.localAs, RouterId: c08U32Addr(c.routerID).String(), ListenPort: -1}}); err != nil {
+	if err := s.StartBgp(ctx, &api.StartBgpRequest{Global: &api.Global{Asn: c.globalAs, RouterId: c08U32Addr(c.routerID).String(), ListenPort: -1,
+		Confederation: &api.Confederation{Enabled: c.confedEn, Identifier: c.confedID, MemberAsList: c.confed}}}); err != nil {
 		t.Fatal(err)
 	}
 	// a local route with a 4-octet AS in its AS_PATH, to see how UPDATEs are encoded later
@@ -221,6 +228,7 @@ func c08Session(t *testing.T, o *vOut, r *vRand, c *c08Cfg, spec *c08OpenSpec, s
 	{
 		conf := peer.fsm.pConf.ReadOnly()
 		c.localAs = conf.Config.LocalAs
+		c.dflInternal, c.resolved = conf.Config.PeerType == oc.PEER_TYPE_INTERNAL, true
 		c.ka3 = int(conf.Timers.Config.KeepaliveInterval*3 + 0.5)
 		c.hold = int(conf.Timers.Config.HoldTime)
 		c.grTime = conf.GracefulRestart.Config.RestartTime
@@ -243,7 +251,7 @@ func c08Session(t *testing.T, o *vOut, r *vRand, c *c08Cfg, spec *c08OpenSpec, s
 		c.grLlgr = conf.GracefulRestart.Config.LongLivedEnabled
 		c.localRestarting = conf.GracefulRestart.State.LocalRestarting
 	}
-	o.op("%s", c.line())
+	c08Defaults(o, c)
 
 	srv, cli := net.Pipe()
 	defer cli.Close()
@@ -263,6 +271,7 @@ func c08Session(t *testing.T, o *vOut, r *vRand, c *c08Cfg, spec *c08OpenSpec, s
 	}
 	o.ask(c08OpenStr(sent.Body.(*bgp.BGPOpen)), "buildopen")
 	c08CheckOpenSent(o, c, sent.Body.(*bgp.BGPOpen))
+	c.announcedAs = c08Analyse(sent.Body.(*bgp.BGPOpen)).realAS
 	o.stat("session_open_sent", 1)
 
 	// 2. our OPEN; the answer is a KEEPALIVE or a NOTIFICATION
@@ -319,12 +328,21 @@ func c08Session(t *testing.T, o *vOut, r *vRand, c *c08Cfg, spec *c08OpenSpec, s
 	o.ask(st, "est")
 	o.sample("session: " + c.line() + " ; " + line + " => " + st)
 
+	// internal / external as the running fsm sees it: against the AS OUR OPEN announced on this session
+	if peer.fsm.isEBGP != (rm.realAS != c.announcedAs) {
+		o.fail("isebgp-not-real-as", c08Detail(c, opens, fmt.Sprintf("fsm.isEBGP %v, peer's OPEN says AS %d, our OPEN announced AS %d (global AS %d, configured local-as %d, peer-as %d)",
+			peer.fsm.isEBGP, rm.realAS, c.announcedAs, c.globalAs, c.cfgLocalAs, c.peerAs)))
+	}
+	if rm.realAS == c.announcedAs {
+		o.stat("session_internal", 1)
+	}
+
 	// ListPeer shows the same negotiated values
 	var shown *api.Peer
 	_ = s.ListPeer(ctx, &api.ListPeerRequest{Address: "10.9.9.9"}, func(p *api.Peer) { shown = p })
 	wantHold := min(c.hold, int(body.HoldTime))
 	if shown == nil || int(shown.Timers.State.NegotiatedHoldTime) != wantHold || shown.State.PeerAsn != rm.realAS ||
-		(shown.State.Type == api.PeerType_PEER_TYPE_INTERNAL) != (rm.realAS == c.localAs) {
+		(shown.State.Type == api.PeerType_PEER_TYPE_INTERNAL) != (rm.realAS == c.announcedAs) {
 		o.fail("listpeer-negotiated-values", c08Detail(c, opens, fmt.Sprint(shown.GetTimers().GetState(), shown.GetState().GetPeerAsn(), shown.GetState().GetType())))
 	}
 
@@ -528,7 +546,8 @@ func c08BigUpdate(t *testing.T, o *vOut, c *c08Cfg, spec *c08OpenSpec) {
 	s := NewBgpServer()
 	go s.Serve()
 	defer c08StopServer(s)
-	if err := s.StartBgp(ctx, &api.StartBgpRequest{Global: &api.Global{Asn: c.localAs, RouterId: c08U32Addr(c.routerID).String(), ListenPort: -1}}); err != nil {
+	if err := s.StartBgp(ctx, &api.StartBgpRequest{Global: &api.Global{Asn: c.globalAs, RouterId: c08U32Addr(c.routerID).String(), ListenPort: -1,
+		Confederation: &api.Confederation{Enabled: c.confedEn, Identifier: c.confedID, MemberAsList: c.confed}}}); err != nil {
 		t.Fatal(err)
 	}
 	if err := s.AddPeer(ctx, &api.AddPeerRequest{Peer: oc.NewPeerFromConfigStruct(c.neighbor())}); err != nil {
@@ -593,6 +612,7 @@ func c08BigUpdate(t *testing.T, o *vOut, c *c08Cfg, spec *c08OpenSpec) {
 	}
 	o.stat(fmt.Sprintf("session_big_update_ext_%d_refused_%d", c08B(rm.ext), c08B(refused)), 1)
 	o.op("%s", c.line())
+	o.op("%s", c.gline())
 	o.op("%s", opens[0])
 	ans := "4096"
 	if !refused {
@@ -618,7 +638,11 @@ func TestVerifC08Session(t *testing.T) {
 	}
 	for i := 0; i < n; i++ {
 		c := c08SessionCfg(r)
+		c.resolve(t) // provisional: the AS an iBGP peer would have
 		realAS := c08PickRealAS(r, c)
+		if slices.Contains(c.confed, realAS) {
+			realAS = c.globalAs
+		}
 		if r.chance(85) {
 			c.peerAs = realAS
 		} else {
